@@ -31,7 +31,7 @@ class Seg(ConnFamily):
 
     name = "seg"
     check_lens = False  # segmentations differ in their number of events
-    quick_n = 700
+    quick_n = 450
     thorough_n = 12000
 
     def gen(self, rng: random.Random, n: int):
@@ -151,7 +151,7 @@ class PumpSeg(PumpFamily):
     data, several records in one read): same outcome as the uncut delivery, at most one invocation"""
 
     name = "pumpseg"
-    quick_n = 160
+    quick_n = 100
     thorough_n = 3000
 
     def impl(self, case):
